@@ -55,7 +55,7 @@ CHECKS = {
              'separators kept); parseComments=False must remove exactly the comments, validate on/off must not change the '
              'DOM; two statements in one sheet must give the concatenation of their DOMs.',
         note='Finite-choice renderings: solver-driven enumeration (quick: uniform fillers x case x quote x escape, and every '
-             'gap x every filler; thorough: the full product). Trusted: z3, the SUMMARY structures and sem() in harness/c02.py.',
+             'gap x every filler; thorough adds gap x case x quote, gap x uniform fillers, gap x escapes). Trusted: z3, the SUMMARY structures and sem() in harness/c02.py.',
         design='3 C02'),
     'C03': dict(
         text='Bounded symbolic model checking of serialise-then-parse on the real code: ~50 carrier sheets '
